@@ -101,7 +101,15 @@ func DrainSettle(p core.Provider, max int, consumers int, deadline, settle time.
 				res.Items = append(res.Items, a)
 				var e error
 				if observe != nil {
-					e = observe(a)
+					// a panicking observer must not leave mu locked (the recover above takes it again)
+					e = func() (e error) {
+						defer func() {
+							if r := recover(); r != nil {
+								e = fmt.Errorf("panic in observe: %v", r)
+							}
+						}()
+						return observe(a)
+					}()
 				}
 				if e != nil && obsErr == nil {
 					obsErr = e
